@@ -235,6 +235,56 @@ def rand_plane_source(r, name, shape, region, T, kind=None, allow_switch=True, a
     return s
 
 
+def rand_tfsf_region(r, name, shape, region, T, faces=None, allow_switch=True):
+    """Total-field/scattered-field box source: >= 2 cells per axis, one cell away from the region's ends (its H
+    correction sits one cell outside the box); a transverse axis with a wrap pair may be declared periodic (box then
+    spans the whole axis).  Returns None when the region is too small."""
+    axis = int(r.integers(0, 3))
+    box, periodic = [], []
+    for a, ax in enumerate("xyz"):
+        lo, hi = region[a][0] + 1, region[a][1] - 1
+        wrap = faces is not None and a != axis and faces[f"min_{ax}"]["kind"] in ("periodic", "bloch") and faces[f"max_{ax}"]["kind"] in ("periodic", "bloch")
+        if wrap and r.uniform() < 0.5:
+            periodic.append(a)
+            box.append([0, shape[a]])
+            continue
+        if hi - lo < 2:
+            return None
+        size = int(r.integers(2, hi - lo + 1))
+        p = int(r.integers(lo, hi - size + 1))
+        box.append([p, p + size])
+    t1, t2 = [(axis + 1) % 3, (axis + 2) % 3]
+    pol = [0.0, 0.0, 0.0]
+    ang = float(r.uniform(0, 2 * np.pi))
+    pol[t1], pol[t2] = float(np.cos(ang)), float(np.sin(ang))
+    cpw = float(r.uniform(8, 16))
+    s = {"kind": "tfsf_region", "name": name, "box": box, "axis": axis, "direction": choice(r, ["+", "-"]), "periodic_axes": periodic,
+         "wavelength": cpw * SPACING, "profile": rand_profile(r, cpw), "e_pol": pol, "amplitude": float(r.uniform(0.5, 2.0))}
+    if allow_switch:
+        sw = rand_switch(r, T)
+        if sw:
+            s["switch"] = sw
+    return s
+
+
+def rand_mode_source(r, name, shape, region, T, allow_switch=True):
+    """Mode source on a full transverse plane of `region` (the mode solver runs on whatever materials lie there)."""
+    axis = int(r.integers(0, 3))
+    if region[axis][1] - region[axis][0] < 3 or any(region[a][1] - region[a][0] < 4 for a in range(3) if a != axis):
+        return None
+    pos = int(r.integers(region[axis][0] + 1, region[axis][1] - 1))
+    box = [list(region[a]) for a in range(3)]
+    box[axis] = [pos, pos + 1]
+    cpw = float(r.uniform(8, 16))
+    s = {"kind": "mode", "name": name, "box": box, "direction": choice(r, ["+", "-"]), "wavelength": cpw * SPACING, "profile": rand_profile(r, cpw),
+         "mode_index": int(r.integers(0, 2))}
+    if allow_switch:
+        sw = rand_switch(r, T)
+        if sw:
+            s["switch"] = sw
+    return s
+
+
 ALL_COMPONENTS = ("Ex", "Ey", "Ez", "Hx", "Hy", "Hz")
 
 
@@ -373,6 +423,11 @@ def rand_scene(r, T=(6, 14), shape=(4, 9), pml=(2, 3), bloch=False, p_nonuniform
             k = "dipole" if "dipole" in source_kinds else k
         if k == "dipole":
             srcs.append(rand_dipole(r, f"s{i}", shp, inner, Tn, allow_switch=switches))
+        elif k in ("tfsf_region", "mode"):
+            s = rand_tfsf_region(r, f"s{i}", shp, inner, Tn, faces=faces, allow_switch=switches) if k == "tfsf_region" else rand_mode_source(r, f"s{i}", shp, inner, Tn, allow_switch=switches)
+            if s is None:
+                s = rand_dipole(r, f"s{i}", shp, inner, Tn, allow_switch=switches)
+            srcs.append(s)
         else:
             s = rand_plane_source(r, f"s{i}", shp, inner, Tn, kind=k, allow_switch=switches)
             if s is None:
